@@ -49,12 +49,12 @@ impl BSM {
         let public_key = signature.get_public_key(&magic_message, SigningHash::Sha256d)?;
         let verify_p2pkh = P2PKHAddress::from_pubkey_impl(&public_key)?;
 
-        let verify_address = verify_p2pkh.to_string_impl()?;
-        let address_string = address.to_string_impl()?;
-        if verify_address != address_string {
+        // The public key hash identifies the signer; the network prefix of the given address does not matter
+        if verify_p2pkh.to_pubkey_hash() != address.to_pubkey_hash() {
             return Err(BSVErrors::MessageVerification(format!(
                 "Provided address ({}) does not match signature address ({})",
-                address_string, verify_address
+                address.to_string_impl()?,
+                verify_p2pkh.to_string_impl()?
             )));
         }
         ECDSA::verify_digest_impl(&magic_message, &public_key, signature, SigningHash::Sha256d)?;
